@@ -13,37 +13,39 @@ import IronCalc.Formula.Partial
 namespace IronCalc.Formula
 
 /-- how identifiers (functions, booleans) and separators are written -/
-structure Spelling where
-  /-- the word written for identifier `x` (function name, TRUE/FALSE, a name) -/
-  word : Nat → List Char
+structure Spelling (W : Type) where
+  /-- the word written for identifier `x` (function name, TRUE/FALSE, a name); `W` is the
+      representation of words (characters, or the UTF-8 code of the extracted name tables) -/
+  word : Nat → W
   /-- the identifiers that are spelled through a language table (functions, booleans) -/
   known : List Nat
   argSep : Char
   decimal : Char
 
 /-- a spelled token: punctuation and literals are language independent at this level -/
-inductive SpTok where
-  | word (w : List Char)
+inductive SpTok (W : Type) where
+  | word (w : W)
   | argSep (c : Char)
   | other (t : Tok)
-deriving DecidableEq
 
-def spellTok (σ : Spelling) : Tok → SpTok
+variable {W : Type} [DecidableEq W]
+
+def spellTok (σ : Spelling W) : Tok → SpTok W
   | .ident x => .word (σ.word x)
   | .sep => .argSep σ.argSep
   | t => .other t
 
 /-- first identifier of the table whose word matches (models `Functions::lookup`: first match) -/
-def lookupWord (σ : Spelling) (w : List Char) : List Nat → Option Nat
+def lookupWord (σ : Spelling W) (w : W) : List Nat → Option Nat
   | [] => none
   | x :: xs => if σ.word x = w then some x else lookupWord σ w xs
 
-def unspellTok (σ : Spelling) : SpTok → Option Tok
+def unspellTok (σ : Spelling W) : SpTok W → Option Tok
   | .word w => (lookupWord σ w σ.known).map Tok.ident
   | .argSep c => if c = σ.argSep then some Tok.sep else none
   | .other t => some t
 
-def unspell (σ : Spelling) : List SpTok → Option (List Tok)
+def unspell (σ : Spelling W) : List (SpTok W) → Option (List Tok)
   | [] => some []
   | s :: ss =>
     match unspellTok σ s, unspell σ ss with
@@ -51,10 +53,10 @@ def unspell (σ : Spelling) : List SpTok → Option (List Tok)
     | _, _ => none
 
 /-- no two identifiers of the table are written the same way -/
-def Spelling.injective (σ : Spelling) : Prop :=
+def Spelling.injective (σ : Spelling W) : Prop :=
   ∀ x ∈ σ.known, ∀ y ∈ σ.known, σ.word x = σ.word y → x = y
 
-theorem lookupWord_self (σ : Spelling) (xs : List Nat) (x : Nat) (hx : x ∈ xs)
+theorem lookupWord_self (σ : Spelling W) (xs : List Nat) (x : Nat) (hx : x ∈ xs)
     (hinj : ∀ a ∈ xs, ∀ b ∈ xs, σ.word a = σ.word b → a = b) :
     lookupWord σ (σ.word x) xs = some x := by
   induction xs with
@@ -72,12 +74,12 @@ theorem lookupWord_self (σ : Spelling) (xs : List Nat) (x : Nat) (hx : x ∈ xs
       exact ih hx' (fun a ha b hb => hinj a (List.mem_cons_of_mem _ ha) b (List.mem_cons_of_mem _ hb))
 
 /-- every identifier occurring in the token list is in the language table -/
-def identsKnown (σ : Spelling) : List Tok → Prop
+def identsKnown (σ : Spelling W) : List Tok → Prop
   | [] => True
   | .ident x :: ts => x ∈ σ.known ∧ identsKnown σ ts
   | _ :: ts => identsKnown σ ts
 
-theorem unspell_spell (σ : Spelling) (hinj : σ.injective) :
+theorem unspell_spell (σ : Spelling W) (hinj : σ.injective) :
     ∀ ts : List Tok, identsKnown σ ts → unspell σ (ts.map (spellTok σ)) = some ts
   | [], _ => rfl
   | t :: ts, h => by
